@@ -1,4 +1,5 @@
 #include "MemoryWriter.h"
+#include "VerifTrace.h"
 #include <cstring> //memcpy
 #include <stdexcept>
 
@@ -9,6 +10,7 @@ namespace OP2Utility::Stream
 
 	void MemoryWriter::WriteImplementation(const void* buffer, std::size_t size)
 	{
+		OP2UTILITY_VERIF_SCOPE("fixed", "Write", size, 0);
 		if (size > streamSize - offset) {
 			throw std::runtime_error("Size of bytes to write exceeds remaining size of buffer.");
 		}
@@ -29,6 +31,7 @@ namespace OP2Utility::Stream
 
 	void MemoryWriter::Seek(uint64_t offset)
 	{
+		OP2UTILITY_VERIF_SCOPE("fixed", "Seek", offset, 0);
 		// Checking if offset goes below 0 is unnecessary. Arithmetic on a signed and unsigned number results
 		// in a signed number that will wraparound to a large positive and be caught.
 		if (offset > streamSize) {
@@ -40,6 +43,7 @@ namespace OP2Utility::Stream
 
 	void MemoryWriter::SeekForward(uint64_t offset)
 	{
+		OP2UTILITY_VERIF_SCOPE("fixed", "SeekForward", offset, 0);
 		if (offset > streamSize - this->offset) {
 			throw std::runtime_error("Change in offset places write position outside bounds of buffer.");
 		}
@@ -49,6 +53,7 @@ namespace OP2Utility::Stream
 
 	void MemoryWriter::SeekBackward(uint64_t offset)
 	{
+		OP2UTILITY_VERIF_SCOPE("fixed", "SeekBackward", offset, 0);
 		if (offset > this->offset) {
 			throw std::runtime_error("Change in offset places write position outside bounds of buffer.");
 		}
